@@ -614,3 +614,146 @@ def gen_curv_tria():
     g.scalar("cmax0", tr, as_sym(tr, tcmax[0]).id, names)
     g.raw("def smoothSeen : List Nat := [%s]\n" % ", ".join(str(x) for x in seen))
     return [g.write()]
+
+
+# ---------------------------------------------------------------- Solver.poisson: glue around the sparse solve
+
+class SymVec(np.ndarray):
+    """dense object array of expressions; `astype` is the identity (the float32 cast of the right-hand side is rounding, which the
+    real-number model does not see)"""
+
+    def astype(self, *a, **k):
+        return self
+
+
+class SymMat:
+    """stand-in for a scipy sparse matrix holding expressions (dense storage): the operations `poisson` uses"""
+    __array_ufunc__ = None
+
+    def __init__(self, M, fmt="csc"):
+        self.M = np.asarray(M, dtype=object)
+        self.fmt = fmt
+        self.shape = self.M.shape
+
+    @classmethod
+    def from_coo(cls, arg, shape=None, dtype=None):
+        data, (i, j) = arg
+        tr = NpProxy.tracer
+        M = np.empty(shape, dtype=object)
+        for idx in np.ndindex(*shape):
+            M[idx] = tr.lift(0)
+        seen = set()
+        for a, b, d in zip(np.asarray(i).reshape(-1), np.asarray(j).reshape(-1), np.asarray(data, dtype=object).reshape(-1)):
+            key = (int(a), int(b))
+            M[key] = (M[key] + d) if key in seen else as_sym(tr, d)
+            seen.add(key)
+        return cls(M)
+
+    def getformat(self):
+        return self.fmt
+
+    def tocsr(self):
+        return SymMat(self.M, "csr")
+
+    def tocsc(self):
+        return SymMat(self.M, "csc")
+
+    def _matmul(self, X):
+        n, m = self.M.shape
+        X2 = X.reshape(m, -1)
+        out = np.empty((n, X2.shape[1]), dtype=object)
+        for r in range(n):
+            for c in range(X2.shape[1]):
+                acc = None
+                for k in range(m):
+                    term = self.M[r, k] * X2[k, c]
+                    acc = term if acc is None else acc + term
+                out[r, c] = acc
+        return out
+
+    def __mul__(self, other):
+        if isinstance(other, SymMat):
+            return SymMat(self._matmul(other.M), self.fmt)
+        other = np.asarray(other, dtype=object)
+        out = self._matmul(other)
+        return (out if other.ndim == 2 else out.reshape(-1)).view(SymVec)
+
+    def dot(self, other):
+        return self.__mul__(other)
+
+    def __rsub__(self, other):           # dense - sparse  (scipy returns a dense matrix)
+        return (np.asarray(other, dtype=object) - self.M).view(SymVec)
+
+    def __getitem__(self, key):
+        return SymMat(self.M[key], self.fmt)
+
+
+class _LU:
+    def __init__(self, rec, a):
+        self.rec = rec
+        rec["a"] = a
+
+    def solve(self, b):
+        self.rec["b"] = b
+        tr = NpProxy.tracer
+        x = np.empty(np.shape(b), dtype=object)
+        for k, idx in enumerate(np.ndindex(*x.shape)):
+            x[idx] = tr.var("x%d" % k)
+        return x
+
+
+def gen_poisson():
+    """`Solver.poisson` on symbolic 4x4 matrices A, B: (i) Dirichlet data at the unsorted indices [2, 0] and Neumann data at [3, 2];
+    (ii) Neumann data only (no elimination).  The matrix and right-hand side handed to `splu(...).solve` and the vector returned for
+    a symbolic solver output x are emitted."""
+    import lapy.solver as S
+    import scipy.sparse.linalg as SL
+    tr = Tracer()
+    NpProxy.tracer = tr
+    A = sym_array(tr, "a", (4, 4))
+    B = sym_array(tr, "b", (4, 4))
+    h = sym_array(tr, "h", (4,))
+    d = sym_array(tr, "d", (2,))
+    nv = sym_array(tr, "n", (2,))
+    names = {"a%d_%d" % (i, j): "a%d%d" % (i, j) for i in range(4) for j in range(4)}
+    names.update({"b%d_%d" % (i, j): "b%d%d" % (i, j) for i in range(4) for j in range(4)})
+    names.update({"h%d" % i: "h%d" % i for i in range(4)})
+    names.update({"d0": "d0", "d1": "d1", "n0": "n0", "n1": "n1"})
+    names.update({"x%d" % i: "x%d" % i for i in range(4)})
+    for i in range(4):
+        tr.var("x%d" % i)
+    s = S.Solver.__new__(S.Solver)
+    s.stiffness = SymMat(A)
+    s.mass = SymMat(B)
+    s.use_cholmod = False
+    rec1, rec2 = {}, {}
+    saved_splu = SL.splu
+    saved_sparse = S.sparse
+    S.sparse = types.SimpleNamespace(csc_matrix=SymMat.from_coo, csr_matrix=SymMat.from_coo)
+    try:
+        with np_proxied(S, tr), core_quiet():
+            SL.splu = lambda a: _LU(rec1, a)
+            x1 = s.poisson(h, (np.array([2, 0]), d), (np.array([3, 2]), nv))
+            SL.splu = lambda a: _LU(rec2, a)
+            x2 = s.poisson(h, (), (np.array([3, 2]), nv))
+    finally:
+        SL.splu = saved_splu
+        S.sparse = saved_sparse
+        NpProxy.tracer = None
+    ab = " ".join("a%d%d" % (i, j) for i in range(4) for j in range(4))
+    bb = " ".join("b%d%d" % (i, j) for i in range(4) for j in range(4))
+    g = GenModule("PoissonSys", "lapy/solver.py::Solver.poisson on symbolic 4x4 matrices (Dirichlet at [2,0] + Neumann at [3,2]; Neumann only)",
+                  "(%s %s h0 h1 h2 h3 d0 d1 n0 n1 x0 x1 x2 x3 : ℝ)" % (ab, bb))
+    g.set_args("%s %s h0 h1 h2 h3 d0 d1 n0 n1 x0 x1 x2 x3" % (ab, bb))
+    g.pc(tr, names)
+
+    def coo_of(M):
+        return [(i, j, as_sym(tr, M[i, j])) for i in range(M.shape[0]) for j in range(M.shape[1])]
+    g.coo("sysA", tr, coo_of(rec1["a"].M), names)
+    g.vec("sysB", tr, flat_syms(tr, rec1["b"]), names)
+    g.vec("result", tr, flat_syms(tr, x1), names)
+    g.coo("sysA2", tr, coo_of(rec2["a"].M), names)
+    g.vec("sysB2", tr, flat_syms(tr, rec2["b"]), names)
+    g.vec("result2", tr, flat_syms(tr, x2), names)
+    g.raw("def fmtA : String := \"%s\"\n" % rec1["a"].getformat())
+    return [g.write()]
